@@ -43,17 +43,25 @@ def tok_json(t):
             t.start_pos, t.end_pos, t.line, t.column, t.end_line, t.end_column]
 
 
+def _is_token(t):
+    return isinstance(t, (str, bytes)) and hasattr(t, 'type') and hasattr(t, 'start_pos')
+
+
+def _is_tree(t):
+    return hasattr(t, 'data') and hasattr(t, 'children') and not isinstance(t, (str, bytes))
+
+
 def tree_json(t, positions=False, meta=False, container=False):
-    """Tree -> nested lists. Tokens: ['T', type, value(, positions)], None: ['N'], Tree: ['R', data, [children](, meta)]"""
-    from lark import Tree, Token
+    """Tree -> nested lists. Tokens: ['T', type, value(, positions)], None: ['N'], Tree: ['R', data, [children](, meta)]
+    (duck-typed: the stand-alone module has its own Tree and Token classes)"""
     if t is None:
         return ['N']
-    if isinstance(t, Token):
-        v = t.value.decode('latin1') if isinstance(t.value, bytes) else str(t)
+    if _is_token(t):
+        v = t.value.decode('latin1') if isinstance(t.value, bytes) else str(t.value)
         if positions:
             return ['T', str(t.type), v, t.start_pos, t.end_pos, t.line, t.column, t.end_line, t.end_column]
         return ['T', str(t.type), v]
-    if isinstance(t, Tree):
+    if _is_tree(t):
         r = ['R', str(t.data), [tree_json(c, positions, meta, container) for c in t.children]]
         if meta:
             m = t.meta
@@ -70,14 +78,19 @@ def tree_json(t, positions=False, meta=False, container=False):
     return ['O', repr(t)]
 
 
+def _mro_names(e):
+    return {c.__name__ for c in type(e).__mro__}
+
+
 def error_json(e):
-    from lark.exceptions import UnexpectedInput, UnexpectedToken, UnexpectedCharacters, UnexpectedEOF
-    d = {'out': 'reject', 'cls': type(e).__name__, 'ui': isinstance(e, UnexpectedInput)}
-    if isinstance(e, UnexpectedInput):
+    names = _mro_names(e)
+    ui = 'UnexpectedInput' in names
+    d = {'out': 'reject', 'cls': type(e).__name__, 'ui': ui}
+    if ui:
         d['pos'] = e.pos_in_stream if e.pos_in_stream is not None else -1
         d['line'] = e.line if isinstance(getattr(e, 'line', None), int) else -1
         d['column'] = e.column if isinstance(getattr(e, 'column', None), int) else -1
-    if isinstance(e, UnexpectedToken):
+    if 'UnexpectedToken' in names:
         d['expected'] = sorted(str(x) for x in (e.expected or ()))
         try:
             d['accepts'] = sorted(str(x) for x in e.accepts) if e.accepts is not None and e.accepts != '<unknown>' else None
@@ -86,9 +99,9 @@ def error_json(e):
         tk = e.token
         d['token_type'] = str(getattr(tk, 'type', ''))
         d['token_pos'] = getattr(tk, 'start_pos', None)
-    elif isinstance(e, UnexpectedCharacters):
+    elif 'UnexpectedCharacters' in names:
         d['allowed'] = sorted(str(x) for x in (e.allowed or ()))
-    elif isinstance(e, UnexpectedEOF):
+    elif 'UnexpectedEOF' in names:
         d['expected'] = sorted(str(getattr(x, 'name', x)) for x in (e.expected or ()))
     return d
 
